@@ -5,6 +5,6 @@ PLAN['C03'] = dict(
          'non-trivial = a multi-column supernode is present; distinct = hash(pattern, route, outcome)',
     counter_names=['multi-column supernodes seen', 'supernodes seen', 'max in-flight expansions in one factorization'],
     min_nontrivial={'quick': 500, 'thorough': 100000},
-    require_tags={'quick': ['route=gstrf', 'route=gssv', 'route=gssvx', 'route=gsisx', 'tall', 'mem=workspace', 'maxsnode=4', 'ilu-U-repeats-row', 'growthy', 'expansions=3']},
+    require_tags={'quick': ['route=gstrf', 'route=gssv', 'route=gssvx', 'route=gsisx', 'tall', 'mem=workspace', 'maxsnode=4', 'ilu-U-repeats-row', 'growthy', 'expansions=3', 'refactor-tall', 'refactor-square', 'reuse=abandoned']},
     assumptions=['the predicate is transcribed from how the consuming routines index the structures', 'ASan witnesses that every index read by the predicate lies inside the allocation'],
 )
